@@ -9,6 +9,7 @@ CONSTANTS
   CachePutBeforeDbWrite = FALSE
   BulkVersionsUsesEpoch = FALSE
   FillPolicy = "if_same_generation"
+  FlushIgnoresCleanFlag = TRUE
 INIT TInit
 NEXT TNext
 CONSTRAINT Track
